@@ -20,6 +20,11 @@ Parts
   dups  : every small group G written twice in every pair of member orders among further siblings, at every sibling position
           and three nesting depths: TAG_EXPRESSION_REPEATED must be reported (absolute), and as for the identical copies.
   vcase : two copies of a valued / extended tag whose values differ in letter case only, under respelling of the tag name.
+  temporal: every pair (thorough: and every triple; quick: a sample of the triples) of temporal groups out of a pool of valid and
+          faulty Onset / Offset / Inset groups (with / without inner group, Def or Def-expand), Duration / Delay groups and delayed
+          onsets '(Delay/1 s, Onset, Def/X)', with declared definitions, alone and next to an ordinary tag or group: EVERY
+          permutation of the top-level members, each with the members of all groups as written and reversed, plus random
+          shuffles and one combined rewrite, must give the same multiset of error codes.
 """
 import itertools
 import random
@@ -36,6 +41,7 @@ CL_SPACE = "C04.spacing.blanks"
 CL_ORDER = "C04.order.siblings"
 CL_ORDER_D2 = "C04.order.duplicate_groups_nonadjacent"        # narrow: defect D2
 CL_ORDER_D8 = "C04.order.def_expand_members"                  # narrow: defect D8 seen through C04
+CL_ORDER_TEMPORAL = "C04.order.temporal_groups"
 CL_REPEAT = "C04.repeat.reported_iff_equal_siblings"
 CL_COMBINED = "C04.combined.all_rewrites"
 CL_TOTAL = "C04.total.no_exception"
@@ -232,7 +238,7 @@ class Runner:
         a, b = self.observe(base, ph), self.observe(rewritten, ph)
         if a is None or b is None:
             return False
-        if a != b and clause in (CL_ORDER, CL_COMBINED) and "Def-expand/" in base and kind != "fixed witness":
+        if a != b and clause in (CL_ORDER, CL_ORDER_TEMPORAL, CL_COMBINED) and "Def-expand/" in base and kind != "fixed witness":
             # symptom of defect D8: the two writings differ only in how many DEF_EXPAND_INVALID they get
             strip = lambda c: [x for x in c if x != "DEF_EXPAND_INVALID"]
             if strip(a) == strip(b):
@@ -636,13 +642,124 @@ def part_vcase(w, run, model, vocab):
 
 
 # =====================================================================================================
+# part temporal: the temporal group checks (Onset / Offset / Inset / Duration / Delay) do not depend on sibling order
+# =====================================================================================================
+DEF_SECOND = "Cdefsecond"
+TEMPORAL_EXTRA_DEFS = ["(Definition/%s,(Square))" % DEF_SECOND]
+
+
+def temporal_pool(model, defs):
+    """(name, faulty?, group as nested lists of short-form texts).  'faulty' only documents the intent of the entry: the check
+    is relational, the verdict itself is whatever the validator says."""
+    a, b = defs["plain"]
+    p, q, v = "Def/" + DEF_PLAIN, "Def/" + DEF_SECOND, "Def/" + DEF_VALUE
+    pool = [
+        ("onset", False, ["Onset", p]),
+        ("onset+group", False, [q, "Onset", ["Red", "Square"]]),
+        ("onset value def", False, ["Onset", v + "/3"]),
+        ("onset def-expand", False, ["Onset", ["Def-expand/" + DEF_PLAIN, [a, b]], ["Ellipse"]]),
+        ("offset", False, [p, "Offset"]),
+        ("offset second def", False, ["Offset", q]),
+        ("inset+group", False, ["Inset", p, ["Green"]]),
+        ("inset", False, ["Inset", q]),
+        ("duration", False, ["Duration/2 s", ["Blue"]]),
+        ("delay", False, ["Delay/1 s", ["Circle"]]),
+        ("delay+duration", False, ["Delay/1 s", "Duration/2 s", ["Triangle"]]),
+        ("delayed onset", False, ["Delay/1 s", "Onset", p]),
+        ("delayed onset+group", False, ["Delay/1 s", "Onset", q, ["Ellipse"]]),
+        ("delayed offset", False, ["Delay/2 s", "Offset", p]),
+        ("delayed inset", False, ["Delay/2 s", "Inset", q, ["Item"]]),
+        ("onset no def", True, ["Onset"]),
+        ("onset two defs", True, ["Onset", p, q]),
+        ("onset two groups", True, ["Onset", p, ["Red"], ["Blue"]]),
+        ("onset extra tag", True, ["Onset", q, "Red"]),
+        ("onset undeclared def", True, ["Onset", "Def/Cundeclared"]),
+        ("onset def needs value", True, ["Onset", v]),
+        ("offset with group", True, ["Offset", p, ["Red"]]),
+        ("offset undeclared def", True, ["Offset", "Def/Cundeclared"]),
+        ("inset extra tag", True, ["Inset", p, ["Green"], "Red"]),
+        ("duration extra tag", True, ["Duration/2 s", "Blue", ["Green"]]),
+        ("duration no group", True, ["Duration/2 s"]),
+        ("duration two groups", True, ["Duration/2 s", ["Red"], ["Green"]]),
+        ("delay extra tag only", True, ["Delay/1 s", "Red"]),
+        ("delayed onset no def", True, ["Delay/1 s", "Onset"]),
+        ("delayed onset two groups", True, ["Delay/1 s", "Onset", p, ["Red"], ["Blue"]]),
+        ("duration with onset", True, ["Duration/2 s", "Onset", p]),
+        ("onset and offset", True, ["Onset", "Offset", q, ["Red"]]),
+    ]
+    names = model.all_names
+    keep = []
+    for name, faulty, g in pool:
+        flat = []
+
+        def walk(x):
+            for y in x:
+                walk(y) if isinstance(y, list) else flat.append(y.split("/")[0])
+        walk(g)
+        if all(t.casefold() in names for t in flat):
+            keep.append((name, faulty, to_leaves(model, g)))
+    return keep
+
+
+def reversed_inside(item):
+    """the same item with the members of every group in reverse order"""
+    return [reversed_inside(x) if isinstance(x, list) else x for x in reversed(item)] if isinstance(item, list) else item
+
+
+def part_temporal(w, run, model, defs, chunk, nchunks):
+    rng = w.rng
+    before = run.n
+    pool = temporal_pool(model, defs)
+    extras = [None, Leaf(model.node("Square")), [Leaf(model.node("Item")), Leaf(model.node("Ellipse"))]]
+    combos = list(itertools.combinations(range(len(pool)), 2))
+    triples = list(itertools.combinations_with_replacement(range(len(pool)), 3))
+    if w.quick:
+        triples = random.Random("%s/temporal-triples" % w.seed).sample(triples, 420)
+    combos += triples
+    n_combos = 0
+    for ci, combo in enumerate(combos):
+        if ci % nchunks != chunk:
+            continue
+        n_combos += 1
+        for ei, extra in enumerate(extras):
+            if len(combo) == 3 and ei != ci % 3:
+                continue                    # triples: one of the three surroundings, rotating
+            members = [clone(pool[i][2]) for i in combo] + ([extra] if extra is not None else [])
+            base = render(members)
+            kind = "order of temporal groups: " + " | ".join(pool[i][0] for i in combo)
+            variants = []
+            for perm in itertools.permutations(range(len(members))):
+                t = [members[i] for i in perm]
+                variants.append(t)
+                variants.append([reversed_inside(x) if isinstance(x, list) else x for x in t])
+            for _ in range(2):
+                variants.append(shuffled(members, rng))
+            for t in variants:
+                # the labels of the two defects seen at design time are kept only where their models apply
+                cl = CL_ORDER_D2 if d2_count(members) != d2_count(t) else CL_ORDER_TEMPORAL
+                run.same(base, render(t), cl, kind)
+            t2 = shuffled(members, rng)
+            nl = count_leaves(members)
+            sp, cp, bp = style_patterns(nl, rng, 4)[-1], case_patterns(nl, rng, 4)[-1], blank_patterns(rng, 5)[-1]
+            cl = order_clause(members, t2)
+            run.same(base, render(t2, styles=lambda i: (sp(i)[0], cp(i)[1]), blanks=bp),
+                     CL_COMBINED if cl == CL_ORDER else cl, "order+spelling+blanks; " + kind)
+    return run.n - before, len(pool), n_combos
+
+
+# =====================================================================================================
 def _task(args):
     tier, seed, version, part, chunk, nchunks = args
     w = Workload("C04", tier, seed)
     w.rng = random.Random("%s/%s/%s/%s" % (seed, version, part, chunk))
     model = SchemaModel(version)
     defs = pick_defs(model)
+    if part == "temporal":
+        defs = dict(defs, strings=defs["strings"] + TEMPORAL_EXTRA_DEFS)
     env = Env(version, defs["strings"])
+    if env.def_issues:
+        w.fail(CL_TOTAL, {"schema": version, "base": "", "rewritten": None, "allow_placeholders": False, "rewrite": "-",
+                          "definitions": defs["strings"]}, observed=env.def_issues, expected="definitions are accepted")
     vocab = Vocab(model, w.quick, w.rng)
     run = Runner(w, env, defs)
     info = {}
@@ -663,6 +780,8 @@ def _task(args):
         n = part_dups(w, run, model, chunk, nchunks)
     elif part == "rich":
         n = part_rich(w, run, model, vocab, defs)
+    elif part == "temporal":
+        n, info["pool"], info["combos"] = part_temporal(w, run, model, defs, chunk, nchunks)
     else:
         n = part_vcase(w, run, model, vocab)
     return {"version": version, "part": part, "chunk": chunk, "cases": n, "counts": run.counts, "info": info,
@@ -681,10 +800,14 @@ def run(w: Workload):
               "ordering, rewrite) for the relational check; rich/delims/vcase: one case per (base annotation, rewrite); a case is "
               "non-trivial when the rewritten text differs from the base text (identical texts are skipped)")
     versions = ["8.3.0"] if w.quick else ["8.3.0", "8.0.0"]
-    for v in versions:
+    temporal_versions = ["8.3.0"] if w.quick else ["8.3.0", "8.2.0"]
+    for v in versions + temporal_versions:
         schema(v)
     tasks = []
     schunks = 6 if w.quick else 13
+    tchunks = 3 if w.quick else 8
+    for v in temporal_versions:
+        tasks += [(w.tier, w.seed, v, "temporal", c, tchunks) for c in range(tchunks)]
     for v in versions:
         tasks += [(w.tier, w.seed, v, "witness", 0, 1)]
         if v == "8.3.0":
@@ -696,8 +819,9 @@ def run(w: Workload):
     ctx = multiprocessing.get_context("fork")
     with ctx.Pool(min(14, len(tasks))) as pool:
         results = pool.map(_task, tasks, chunksize=1)
-    order = ["witness", "vcase", "dups", "small", "delims", "rich"]
-    results.sort(key=lambda r: (versions.index(r["version"]), order.index(r["part"]), r["chunk"]))
+    order = ["witness", "vcase", "dups", "small", "delims", "rich", "temporal"]
+    allv = versions + [v for v in temporal_versions if v not in versions]
+    results.sort(key=lambda r: (allv.index(r["version"]), order.index(r["part"]), r["chunk"]))
     agg = {}
     for r in results:
         w.evaluations += r["evaluations"]
@@ -708,8 +832,10 @@ def run(w: Workload):
             if sum(1 for g in w.failures if g["clause"] == f["clause"]) < w.max_failures_per_clause:
                 w.failures.append(f)
         w.samples += r["samples"]
-        a = agg.setdefault((r["version"], r["part"]), {"cases": 0, "counts": {}, "trees": 0})
+        a = agg.setdefault((r["version"], r["part"]), {"cases": 0, "counts": {}, "trees": 0, "pool": 0, "combos": 0})
         a["cases"] += r["cases"]
+        a["pool"] = max(a["pool"], r["info"].get("pool", 0))
+        a["combos"] += r["info"].get("combos", 0)
         a["trees"] = max(a["trees"], r["info"].get("trees", 0))
         for k, n in r["counts"].items():
             a["counts"][k] = a["counts"].get(k, 0) + n
@@ -726,6 +852,11 @@ def run(w: Workload):
                     "plain / with special group / with one fault / both); 5 path-form, 5 case, 6 blank, 6 order, 3 combined "
                     "rewrites each; every 5th base with allow_placeholders=True" % ((260 if w.quick else 1200) * (2 if w.quick else 6)),
             "witness": "fixed list of minimal pairs for the narrow clauses and their passing neighbours",
+            "temporal": "%d combinations: every pair%s of a pool of %d valid and faulty Onset / Offset / Inset / Duration / Delay groups "
+                        "(delayed onsets, Def and Def-expand, 3 declared definitions), pairs alone / next to a tag / next to a group, "
+                        "triples in one of these surroundings; every permutation of the top-level members x {groups as written, all "
+                        "groups reversed}, 2 random shuffles, 1 combined rewrite" %
+                        (a["combos"], " and a sample of 420 triples" if w.quick else " and every triple (with repetition)", a["pool"]),
             "dups": "every group G over {Red, Blue, Green} with <= 3 leaves and depth <= 2, every pair of written member orders of G as "
                     "two sibling copies, 7 sets of further siblings, %s sibling positions, at nesting depth 0, 1 and 3 "
                     "(annotation depth <= 5)" % ("4 sampled" if w.quick else "all"),
